@@ -149,6 +149,16 @@ class World(object):
         for t in cfg.get("topics", []):
             self.cluster.add_topic(t["name"], t.get("parts", 1), leaders=t.get("leaders"), part_ids=t.get("part_ids"))
         self.cluster.auto_create = cfg.get("auto_create", False)
+
+        def resolve():
+            # a bootstrap name resolves, like DNS, to whatever address a broker currently has
+            al = sorted(self.cluster.alive(), key=lambda b: b.node)
+            if not al:
+                return None
+            b = al[self.sim.rng("dns").randrange(len(al))]
+            return (b.host, b.port)
+
+        self.net.aliases[("kafka", 9092)] = resolve
         for r in plan.get("faults", []):
             if "api" in r or r.get("kind") == "rule":
                 self.cluster.add_rule(r)
@@ -184,7 +194,7 @@ class World(object):
             calls.append(k)
             return table[min(k, len(table)) - 1]
 
-        hosts = ccfg.get("bootstrap") or ["b1:9092"]
+        hosts = ccfg.get("bootstrap") or ["kafka:9092"]
         client = KafkaClient(
             hosts, clientId=ccfg.get("client_id", "sim-" + pid), timeout=ccfg.get("timeout_ms", 10000),
             disconnect_on_timeout=ccfg.get("disconnect_on_timeout", False), correlation_id=ccfg.get("correlation_id", 0),
